@@ -585,8 +585,12 @@ func Execute(t synctestT, h *Harness, seed, idx uint64, tier string, tape *Tape,
 	return out
 }
 
+// isDeadlockPanic recognises only the benign end-of-bubble panic (goroutines
+// of the run left parked after the root returned). "all goroutines in bubble
+// are blocked" means the root goroutine itself blocked on a parked task during
+// the run: that is harness trouble and must never pass as a clean run.
 func isDeadlockPanic(s string) bool {
-	return contains(s, "deadlock") || contains(s, "blocked goroutines")
+	return contains(s, "main bubble goroutine has exited")
 }
 
 func contains(s, sub string) bool {
